@@ -20,10 +20,18 @@ def r1(run):
     run.floor("broadcast::Sender<Frame>::send call sites", len(sends), 1)
     if not sends:
         return
-    send = ([c for c in sends if c.body.def_ == C.APPEND] or sends)[0]
-    b = send.body
+    pubs = C.publishers(run.facts)
+    run.ob("%s|is-append" % C.APPEND, bool(pubs) and pubs[0].def_ == C.APPEND, pubs[0].sp if pubs else "<crate>",
+           "Store::append (test-pinned name) publishes; every other publisher is an inherent Store method and owes the same section: %s" % [x.def_ for x in pubs])
+    for b in pubs:
+        mine = [c for c in sends if c.body is b]
+        if mine:
+            r1_for(run, b, mine)
+
+
+def r1_for(run, b, sends):
+    send = sends[0]
     run.touch(b)
-    run.ob("%s|is-append" % b.def_, b.def_ == C.APPEND, b.sp, "the publishing function is Store::append (test-pinned name): %s" % b.def_)
     ids = q.live_calls(b, C.SCRU_NEW)
     inserts = q.live_calls(b, C.INSERT_FRAME)
     run.floor("id assignment (scru128::new) in the publishing function", len(ids), 1, b.sp)
@@ -76,7 +84,8 @@ def r2(run):
     facts = run.facts
     sends = publisher_body(run)
     for c in sends:
-        run.ob("%s|broadcast-send" % c.body.def_, c.body.def_ == C.APPEND, c.sp, "broadcast send only from Store::append")
+        run.ob("%s|broadcast-send" % c.body.def_, c.body.def_ in C.publisher_names(facts), c.sp,
+               "broadcast send only from Store::append (or a sibling Store method that is held to the same obligations)")
     wrappers = C.insert_wrappers(facts)
     callers = C.callers_of(facts, C.INSERT_FRAME)
     for w in wrappers:
@@ -85,6 +94,8 @@ def r2(run):
     allowed = {C.APPEND: "the append critical section", "xs::api::handle_import": "import: the property excepts imports"}
     for w in wrappers:
         allowed[w] = "forwards its own &Frame parameter to insert_frame (its callers are audited instead)"
+    for pn in C.publisher_names(facts):
+        allowed.setdefault(pn, "sibling publisher: the append critical section, verified like Store::append")
     for (b, c) in callers:
         fn = facts.enclosing_fn(b)
         run.ob("%s|call:Store::insert_frame" % fn, fn in allowed, c.sp,
@@ -102,7 +113,7 @@ def r2(run):
                 n += 1
                 fn = facts.enclosing_fn(b)
                 val = q.peel(b.rvalue_expr(rv))
-                ok = fn == C.APPEND and val[0] == "call" and val[1].fn == C.SCRU_NEW
+                ok = fn in C.publisher_names(facts) and val[0] == "call" and val[1].fn == C.SCRU_NEW
                 run.ob("%s|write(Frame.id)" % fn, ok, sp, "Frame.id written in %s from %s" % (fn, fmt(val)), reason="id-assigned-elsewhere")
     run.floor("direct writes to Frame.id", n, 1)
     # direct partition mutators: none outside batches (shared with C04)
